@@ -133,14 +133,29 @@ theorem tokenProcessRequest_tables (s : State) (r : Remote) (w : Wire) :
   simp only
   split <;> exact ⟨rfl, rfl⟩
 
+theorem fireEmptyAck_tables (s : State) (r : Remote) (t : Token) :
+    (fireEmptyAck s r t).1.exchanges = s.exchanges ∧
+    (fireEmptyAck s r t).1.backlogs = s.backlogs := by
+  unfold fireEmptyAck
+  split
+  · exact ⟨rfl, rfl⟩
+  · simp [sendBare, sendInitially, storeReply, dropPiggy]
+
 theorem processRequest_tables (s : State) (r : Remote) (w : Wire) :
     (processRequest s r w).1.exchanges = s.exchanges ∧
     (processRequest s r w).1.backlogs = s.backlogs := by
   unfold processRequest
   simp only
+  have h0 := fireEmptyAck_tables s r w.token
   split
-  · exact (tokenProcessRequest_tables _ r w)
-  · exact (tokenProcessRequest_tables _ r w)
+  · have h := tokenProcessRequest_tables
+      { (fireEmptyAck s r w.token).1 with
+        piggy := (fireEmptyAck s r w.token).1.piggy ++
+          [{ remote := r, token := w.token, mid := w.mid,
+             fireAt := (fireEmptyAck s r w.token).1.now + (fireEmptyAck s r w.token).1.cfg.emptyAckDelay }] } r w
+    exact ⟨h.1.trans h0.1, h.2.trans h0.2⟩
+  · have h := tokenProcessRequest_tables (fireEmptyAck s r w.token).1 r w
+    exact ⟨h.1.trans h0.1, h.2.trans h0.2⟩
 
 theorem NInv_of_tables {s s' : State} (h : NInv s) (he : s'.exchanges = s.exchanges)
     (hb : s'.backlogs = s.backlogs) : NInv s' := by
